@@ -5,7 +5,8 @@
  'trusted': ['encoding/json Decoder.Token and encoding/xml Decoder.Token/RawToken are modelled as the token '
              'stream determined by the document (jtokens / xtokens, incl. the namespace translation of '
              'encoding/xml); the harness reads the same text with its own decoder and the model is compared '
-             'against that stream on every case',
+             'against that stream on every case (CharsetReader = x/net charset.NewReaderLabel, the documented '
+             'charset handling; documents with a declared non-UTF-8 encoding are generated as bytes)',
              "strconv.FormatFloat(v,'f',-1,64) / ParseFloat enter the theorems as Section variables; the "
              'harness supplies them as a table computed with strconv and asserts the round trip on every '
              'number',
